@@ -63,6 +63,12 @@ PROPS = {
         "assumptions": ["LSP wire framing (server.go) and JSON decoding of requests are trusted glue; positions are sent as (line, character) pairs", "at the last character of a range either neighbour's answer is accepted (Range.Contains is end-inclusive)"],
         "trusted_base": ["modelled rather than verified: lsp/handlers.go, analysis/hover.go, goto_definition.go, document_symbols.go, check.go"],
     },
+    "C20": {
+        "rule": "generated scripts (clean, warning-only after name edits, erroneous; succeeding and failing at run time; amounts beyond 2^64 in balances and variables): the numscript binary built from the working tree is run as a process: `check FILE` (exit status, printed positions) and `run` through --raw, --stdin and file flags in JSON mode (exit status, decoded stdout, stderr prefix), each compared with the library called in-process on the same inputs. Every case non-trivial; distinct by hash.",
+        "assumptions": ["PARTIAL: cobra, encoding/json, file I/O, stdout/stderr and exit codes are exercised as a black box, not modelled"],
+        "trusted_base": ["modelled rather than verified: decision logic of cmd/check.go, cmd/run.go (coq/Model/Cli.v)"],
+        "cli": True,
+    },
     "C03": {
         "rule": SCRIPTS_RULE + "profile: one fixed-amount send (optionally preceded by saves). Non-trivial: source and destination trees evaluate and the send reaches the draw; distinct by hash of the case.",
         "assumptions": ["Spec/Greedy.v (draw_exact) is what 'the sources, drawn in their declared order within their balances, caps and overdraft limits, can supply' means",
